@@ -59,7 +59,7 @@ def sig(fl):
         else:
             nm = "fresh"
         try:
-            pub = any(o[sd][r]["has"] and o[sd][r]["q"] != 0 for sd in ("alloc", "cap") for r in ("cpu", "mem"))
+            pub = any(o[sd][r] != 0 for sd in ("alloc", "cap") for r in ("cpu", "mem"))
         except Exception:
             pub = None
         return "op=recon nodemetric=%s node-publishes=%s" % (nm, {True: "yes", False: "no"}.get(pub, "?"))
